@@ -35,6 +35,9 @@ def cases(draw, tier="quick"):
                              gen.sample_lists(uni2, max_samples=6 if big else 4, max_leaves=12 if big else 8)))
     if draw(st.booleans()):
         samples = samples + draw(gen.dictlike_samples(universe))
+    if draw(st.integers(0, 5)) == 0:
+        # keys that match a pattern only when its flags are honoured (C13 works on the inferred types, no names are derived)
+        samples = samples + [{universe[0]: {draw(st.sampled_from(["N_1", "N_2", "A", "B"])): draw(gen.scalars()), "n_2": 1}}]
     if draw(st.integers(0, 7)) == 0:
         # a mapping whose values compare equal across types (1, 1.0, True): T has to admit every one of them
         vals = draw(st.permutations([1, 1.0, True, 0, 0.0]))[:draw(st.integers(2, 4))]
